@@ -302,10 +302,11 @@ class Run:
         m = self.ref_memo.get((ds, args_idx))
         if m is not None:
             return m
-        refdir = os.path.join('ref', f'd{ds}')
-        for p in glob.glob(os.path.join(refdir, '*')) + glob.glob(os.path.join(refdir, '.*')):
-            if is_cache(p):
-                os.unlink(p)
+        # a fresh pristine copy of the sources for every reference parse: no cache of any name or location can be present
+        self._ref_serial = getattr(self, '_ref_serial', 0) + 1
+        refroot = os.path.join('refrun', str(self._ref_serial))
+        refdir = os.path.join(refroot, f'd{ds}')
+        shutil.copytree(os.path.join('ref', f'd{ds}'), refdir)
         installed = self.fs.installed
         if installed:
             self.fs.uninstall()
@@ -319,9 +320,7 @@ class Run:
         finally:
             if installed:
                 self.fs.install()
-        for p in glob.glob(os.path.join(refdir, '*')):
-            if is_cache(p):
-                os.unlink(p)
+        shutil.rmtree(refroot, ignore_errors=True)
         self.ref_memo[(ds, args_idx)] = m
         return m
 
@@ -333,12 +332,12 @@ class Run:
 
     def dir_snapshot(self, ds: int) -> dict:
         out = {}
-        dp = f'd{ds}'
-        for n in os.listdir(dp):
-            p = os.path.join(dp, n)
-            if is_cache(p) and os.path.isfile(p):
-                st = os.stat(p)
-                out[p] = (st.st_size, st.st_mtime_ns, st.st_ino)
+        for root, _dirs, files in os.walk(f'd{ds}'):
+            for n in files:
+                p = os.path.join(root, n)
+                if is_cache(p):
+                    st = os.stat(p)
+                    out[p] = (st.st_size, st.st_mtime_ns, st.st_ino)
         return out
 
     def plain_load(self, path):
@@ -440,7 +439,7 @@ class Run:
 
         # effective path bookkeeping
         if entry['path'] is None:
-            cands = [p for p in cache_reads + cache_writes if os.path.dirname(p) == f'd{ds}']
+            cands = [p for p in cache_reads + cache_writes if os.path.normpath(p).split(os.sep)[0] == f'd{ds}']
             cands += [p for p in changed if not os.path.basename(p).startswith(('explicit_', 'save_'))]
             if cands:
                 entry['path'] = cands[0] if os.path.exists(cands[0]) or len(cands) == 1 else next((c for c in cands if os.path.exists(c)), cands[0])
